@@ -48,6 +48,11 @@ known("C18", "C18-R2-byte-array-source", "RecordMsg.expandComponents/csd-distanc
       "same defect as the narrow shift above, seen by the value rule: the distance half of compressed_speed_distance is not bits 12..23 of the little-endian value whenever byte 2 has bits above the low nibble (uint8 shifted before widening)",
       "bytes {0x00, 0x00, 0x12}: distance component is 0x20, should be 0x120")
 
+# D14: Encode rejects strings the decoder accepted
+known("C07", "C07-R1-error-sites", "encodeString/utf8.Valid",
+      "encodeString returns an error for strings that are not valid UTF-8 (including when truncation to size-1 bytes splits a multi-byte rune), while the decoder's string arms copy arbitrary bytes up to the first NUL: Encode fails on Files that Decode accepted. Not repaired: whether to drop the check, sanitise in the decoder or truncate on rune boundaries is a policy decision for the maintainers, not a minimal correction",
+      "a file_id product_name field holding bytes {0xFF, 0xFE, 0x00}: Decode succeeds with ProductName \"\\xff\\xfe\", Encode returns `can't encode ... as UTF-8 string`")
+
 # D15: +90 degrees exactly
 known("C17", "C17-R2-guard-intervals", "NewLatitude(1073741824)",
       "NewLatitude rejects 2^30 semicircles (exactly +90 degrees, which is not outside +-90 degrees): the upper guard is > MaxInt32/2 = 2^30-1; -2^30 (-90 degrees) is accepted. Documented and table-tested behaviour of the repository (latlng_test.go pins NewLatitude(MaxInt32/2+1) as invalid), so a repair would edit the pinned suite",
